@@ -205,6 +205,27 @@ def bound_class(f, bb, S, b, side):
     pos = core
     while pos[0] in ("field", "variant") or (pos[0] == "call" and (pos[1].endswith(("Option::unwrap", "Option::expect", "Option::ok_or", "Option::ok_or_else", "Result::unwrap", "Result::expect")) or pos[4] == "std::ops::Try::branch") and pos[2]):
         pos = strip(pos[1]) if pos[0] in ("field", "variant") else strip(pos[2][0])
+    if pos[0] == "call" and pos[1].endswith(("Option::or", "Option::or_else")) and len(pos[2]) == 2:
+        # first.or_else(|| second): every alternative must be a good offset on its own
+        alts2 = [pos[2][0]]
+        second = pos[2][1]
+        if pos[1].endswith("or_else"):
+            second = A.closure_value(f.prog, second)
+        if second is not None:
+            alts2.append(second)
+            verdicts = []
+            for alt in alts2:
+                cand = ("variant", alt, "Some")
+                cand = ("field", cand, "0", "std::option::Option::Some")
+                if addsym is not None:
+                    cand = ("field", ("bin", "AddWithOverflow", cand, addsym), "0", "")
+                verdicts.append(bound_class(f, bb, S, cand, side))
+            if all(v[0] for v in verdicts):
+                info = {"pos": True}
+                if all("after" in v[2] for v in verdicts):
+                    info["after"] = verdicts[0][2]["after"]
+                return True, " or else ".join(sorted(set(v[1] for v in verdicts))), info
+            return False, [v[1] for v in verdicts if not v[0]][0], {}
     if pos[0] == "call" and pos[1].endswith(FINDERS) and "str" in pos[1] and fmt_sym(strip(pos[2][0]), maxdepth=D) == S:
         pat = strip(pos[2][1])
         plit = _lit(pat)
@@ -263,6 +284,17 @@ def bound_class(f, bb, S, b, side):
             scan_ok = False
     if scan_ok and saw_scan:
         return True, "offset(s) of a char_indices() scan of the same string (index, or index + 1 after an ASCII char, or 0)", {"pos": True, "scan": True}
+    if pos[0] == "call" and pos[1] in f.prog.fns and addsym is not None and addsym[0] == "const" and addsym[2] == 1:
+        # finder(s, SET) + 1: a boundary when the finder only reports positions of characters contained in SET and the
+        # caller's SET is a constant list of one-byte characters
+        g = f.prog.fns[pos[1]]
+        k = boundary_summary(f.prog, g)
+        q = selected_set_param(f.prog, g)
+        if k is not None and q is not None and k - 1 < len(pos[2]) and q - 1 < len(pos[2]) and fmt_sym(strip(pos[2][k - 1]), maxdepth=D) == S:
+            chars = _const_chars(pos[2][q - 1])
+            if chars and all(len(c) == 1 and ord(c) < 128 for c in chars):
+                return True, "offset returned by %s + 1: it reports only positions of characters from its set argument, here the one-byte characters %s" % (pos[1].split("::")[-1], sorted(chars)), {"pos": True, "after": 1}
+            return False, "offset returned by %s + 1, but the character set passed is not a constant list of one-byte characters" % pos[1].split("::")[-1], {}
     if pos[0] == "call" and pos[1] in f.prog.fns and addsym is None:
         k = boundary_summary(f.prog, f.prog.fns[pos[1]])
         if k is not None and k - 1 < len(pos[2]) and fmt_sym(strip(pos[2][k - 1]), maxdepth=D) == S:
@@ -273,6 +305,123 @@ def bound_class(f, bb, S, b, side):
 
 
 _BS = {}
+_SS = {}
+
+
+def _const_chars(sym):
+    """the characters of a constant char list (`&['+', '-']`), else None"""
+    out = []
+    for x in walk(sym):
+        if x[0] == "const":
+            v = x[2]
+            for y in (v if isinstance(v, tuple) else (v,)):
+                if isinstance(y, str) and len(y) == 1:
+                    out.append(y)
+                elif isinstance(y, str):
+                    return None
+        elif x[0] == "call" and x[1].endswith(("::next", "::into_iter", "::iter")):
+            continue        # an element of a constant table of lists: one of the table's characters
+        elif x[0] in ("call", "param", "phi", "unknown"):
+            return None
+    return out or None
+
+
+def selected_set_param(P, g):
+    """If every offset g returns (inside Some) is stored under a guard `SET.contains(&ch)` where SET is one of g's slice
+    parameters and (offset, ch) is the item of a char_indices() scan, return SET's parameter index (1-based), else None."""
+    if g.name in _SS:
+        return _SS[g.name]
+    _SS[g.name] = None
+    somes = []
+    for b in sorted(g.normal_blocks()):
+        for st in g.stmts(b):
+            if st[2] == "=" and st[4][0] == "agg" and st[4][1] == "adt" and st[4][2].endswith("Option::Some") and st[4][3] and _operand_ty(g, st[4][3][0]) == "usize":
+                somes.append((b, g.sym_operand(st[4][3][0])))
+    if not somes:
+        return None
+    found = set()
+    for (b, v) in somes:
+        item = None
+        for x in walk(strip(v)):
+            if x[0] == "call" and x[1].endswith("::next") and any(y[0] == "call" and y[1].endswith("::char_indices") for y in walk(x)):
+                item = x
+        if item is None or not fmt_sym(strip(v), maxdepth=D).endswith(".0"):
+            return None
+        q = None
+        for gd in A.guards_of(g, b):
+            if gd["polarity"] is not True:
+                continue
+            c = strip(gd["cond"])
+            if c[0] == "call" and c[1].endswith("::contains") and len(c[2]) == 2:
+                recv, arg = strip(c[2][0]), c[2][1]
+                if recv[0] == "param" and any(x is item or x == item for x in walk(arg)) and fmt_sym(strip(arg), maxdepth=D).endswith(".1"):
+                    q = recv[1]
+        if q is None:
+            return None
+        found.add(q)
+    if len(found) == 1:
+        _SS[g.name] = found.pop()
+    return _SS[g.name]
+
+
+def _single_caller(P, f):
+    """(caller, call) when f is a private, non-recursive-by-itself function with exactly one call site in the crate."""
+    if not str(f.vis).startswith("in:") or f.kind == "closure":
+        return None
+    hits = [(g, c) for g in P.fns.values() for c in g.calls() if c.resolved == f.name and c.bb in g.normal_blocks()]
+    if len(hits) != 1 or hits[0][0].name == f.name:
+        return None
+    return hits[0]
+
+
+def _in_caller(P, f, sym):
+    """sym of private single-caller f with its parameters replaced by the caller's argument values"""
+    hit = _single_caller(P, f)
+    if hit is None:
+        return None
+    g, c = hit
+    args = [g.sym_operand(a) for a in c.args]
+
+    def sub(n):
+        if n and n[0] == "param" and isinstance(n[1], int) and 1 <= n[1] <= len(args):
+            return args[n[1] - 1]
+        return n
+    return g, c, A.map_sym(sym, sub)
+
+
+def discharge_split_at(site):
+    ok, why = _discharge_split_at(site["f"], site["bb"], site["f"].sym_operand(site["call"].args[0]), site["f"].sym_operand(site["call"].args[1]))
+    if not ok:
+        # the position is a parameter of a private helper with one caller: judge it with the caller's argument values, under
+        # the guards of the call site
+        f = site["f"]
+        r0 = _in_caller(f.prog, f, f.sym_operand(site["call"].args[0]))
+        r1 = _in_caller(f.prog, f, f.sym_operand(site["call"].args[1]))
+        if r0 and r1:
+            ok2, why2 = _discharge_split_at(r0[0], r0[1].bb, r0[2], r1[2])
+            if ok2:
+                return True, why2 + " (arguments of its only caller %s)" % r0[0].short_name
+    return ok, why
+
+
+def _discharge_split_at(f, bb, recv_sym, mid):
+    """`s.split_at(mid)` panics unless mid is a char boundary <= len: the same obligation as the end bound of `s[..mid]`.
+    `rest.split_at(1)` where rest is the tail of an earlier split at the position of a one-byte character: 1 is a boundary."""
+    recv = strip(recv_sym)
+    S = fmt_sym(recv, maxdepth=D)
+    ok, d, info = bound_class(f, bb, S, mid, 1)
+    if ok:
+        return True, "split_at(%s)" % d
+    m = strip(mid)
+    if m[0] == "const" and m[2] == 1 and recv[0] == "field" and recv[2] == "1":
+        inner = strip(recv[1])
+        if inner[0] == "call" and inner[1].endswith("str>::split_at") and len(inner[2]) == 2:
+            S0 = fmt_sym(strip(inner[2][0]), maxdepth=D)
+            plus1 = ("field", ("bin", "AddWithOverflow", inner[2][1], ("const", "usize", 1)), "0", "")
+            ok2, d2, _ = bound_class(f, bb, S0, plus1, 1)
+            if ok2:
+                return True, "split_at(1) on the tail of a split at a one-byte character (%s)" % d2
+    return False, "split_at: " + d
 
 
 def boundary_summary(P, g):
@@ -702,6 +851,8 @@ def run(P, R, tier, cfg):
                 ok, why = discharge_seq_index(P, s)
             elif k.startswith("assert"):
                 ok, why = discharge_assert(s)
+            elif k == "api:split_at":
+                ok, why = discharge_split_at(s)
             else:
                 ok, why = False, "panicking API call"
         except Exception as e:  # a rule that cannot classify must not pass silently
